@@ -245,3 +245,25 @@ func VerifShardWithSource(id uint32, name, source string) []byte {
 	}
 	return verifWriteShard(b, name).data
 }
+
+// VerifSearcherFromBytes: what the loader does with a shard file's bytes (NewSearcher over an
+// in-memory IndexFile).
+func VerifSearcherFromBytes(data []byte, name string) (zoekt.Searcher, error) {
+	return NewSearcher(verifFile(data, name))
+}
+
+// VerifInJSONSection: whether byte pos of the (valid) shard lies in one of its two JSON sections
+// (index metadata, repository metadata), whose decoding is a token model in the engine.
+func VerifInJSONSection(data []byte, pos int) bool {
+	r := &reader{r: verifFile(data, "layout.zoekt")}
+	var toc indexTOC
+	if err := r.readTOC(&toc); err != nil {
+		panic(err)
+	}
+	for _, s := range []simpleSection{toc.metaData, toc.repoMetaData} {
+		if uint32(pos) >= s.off && uint32(pos) < s.off+s.sz {
+			return true
+		}
+	}
+	return false
+}
